@@ -61,8 +61,9 @@ def short_dem(d):
 # ---------------------------------------------------------------- units
 class Unit:
     """A translation unit compiled from the CURRENT working tree of /repo on every run."""
-    def __init__(s, prop, name, src, defs=None, roots="re:^w_", cut=(), aliases=None, extra_flags=(), stubs=()):
+    def __init__(s, prop, name, src, defs=None, roots="re:^w_", cut=(), aliases=None, extra_flags=(), stubs=(), type_aliases=None):
         s.prop, s.name, s.src = prop, name, src
+        s.type_aliases = dict(type_aliases or {})
         s.defs = dict(defs or {}); s.roots = roots; s.cut = list(cut); s.aliases = dict(aliases or {})
         s.extra_flags = list(extra_flags); s.stubs = list(stubs)
         s.dir = os.path.join(BUILD, prop, "units", name)
@@ -109,6 +110,11 @@ class Unit:
         s.names = names
         with open(os.path.join(s.dir, "names.h"), "w") as f:
             for k, v in sorted(names.items()): f.write("#define %s %s\n" % (k, v))
+            # type aliases: NAME -> pointee type of parameter i of wrapper w
+            for k, (wn, i) in sorted(s.type_aliases.items()):
+                if wn not in fn: raise ToolError("type alias %s: wrapper %s not in unit %s" % (k, wn, s.name))
+                ty = fn[wn]["params"][i][0]
+                f.write("#define %s %s\n" % (k, ty[:-1] if ty.endswith("*") else ty))
         s.built = True
         return s
     def fmeta(s, mangled):
@@ -168,6 +174,7 @@ class Task:
             else: L.append("  %s %s = %s;" % (v.ctype, v.name, v.init))
         for v in s.vars:
             if v.assume: L.append("  __CPROVER_assume(%s);" % v.assume)
+        L.append("  LL_global_ctors();   /* dynamic initialisers of the globals the unit uses */")
         if s.harness_pre: L.append(s.harness_pre)
         L.append("  LL_nothrow = %d;" % (1 if s.nothrow else 0))
         L.append("  " + s.call + ";")
